@@ -1,31 +1,26 @@
 #!/bin/bash
 # Offline build of the framework from files on disk only (run once after a fresh restore).
+# Builds exactly what the accepted properties (checklib/ready.txt) need.
 set -e
 cd "$(dirname "$0")"
 export GOFLAGS=-mod=mod GOPROXY=off GOSUMDB=off GOTOOLCHAIN=local CGO_ENABLED=0
 REPO="${GALAXY_REPO:-/repo}"
 mkdir -p out/bin out/replay evidence lean/Galaxy/Generated
+T=$(python3 tools/targets.py)
+FG=$(echo "$T" | sed -n 's/^factgen //p'); LEAN=$(echo "$T" | sed -n 's/^lean //p'); HAR=$(echo "$T" | sed -n 's/^harness //p')
 # 1. translators: regenerate lean/Galaxy/Generated from the source tree
-for d in tools/factgen/cmd/*/; do
-  [ -d "$d" ] || continue
-  a=$(basename "$d")
+for a in $FG; do
   (cd tools/factgen && go build -o ../../out/bin/factgen_$a ./cmd/$a)
   ./out/bin/factgen_$a -repo "$REPO" -out lean/Galaxy/Generated || {
     # source shape unknown to the translator: the checks will report it; build from the golden copy meanwhile
     [ -d tools/factgen/golden/$a ] && cp tools/factgen/golden/$a/* lean/Galaxy/Generated/
   }
 done
-# 2. Lean: library (models, lemmas, theorems) and every model driver whose root module exists
-exes=""
-for e in $(grep -o 'name = "gxdrv_[a-z]*"' lean/lakefile.toml | sed 's/name = "\(.*\)"/\1/'); do
-  root=$(grep -A1 "name = \"$e\"" lean/lakefile.toml | grep root | sed 's/.*"\(.*\)"/\1/')
-  [ -f "lean/$(echo "$root" | tr . /).lean" ] && exes="$exes $e"
-done
-(cd lean && lake build Galaxy $exes)
+# 2. Lean: the property modules (with the models and lemmas below them) and the model drivers
+[ -n "$LEAN" ] && (cd lean && lake build $LEAN)
 # 3. Go harness commands (hooks on: -tags verif), built against the source tree
 cp "$REPO/go.sum" harness/go.sum
-for d in harness/cmd/*/; do
-  a=$(basename "$d")
+for a in $HAR; do
   (cd harness && go build -tags verif -o ../out/bin/gxh_$a ./cmd/$a)
 done
 echo setup done
